@@ -157,7 +157,12 @@ radixsort_int(element_type *in, element_type *work, size_t n)
 		/* Compute the correct output starting index for each possible
 		   byte value.
 		*/
+#ifdef ZODB_UNSIGNED_KEY_INTS
+		/* Unsigned keys: the MSB sorts like every other byte. */
+		if (1) {
+#else
 		if (bytenum < sizeof(element_type) - 1) {
+#endif
 			for (i = 0; i < 256; ++i) {
 				const size_t icount = pcount[i];
 				index[i] = total;
